@@ -83,13 +83,13 @@ theorem exec_outcome (s : Sh) (pc : PC) (k : Nat) (hg : guardMiss s pc = false)
     (h : ((exec s pc).1.boxes k).pending > 0) : Outcome s pc k := by
   cases pc with
   | ub k' first upc =>
-    have hb : ∀ s' : Sh, s' = s.updBox k' (fun b => { b with mb := (Unbounded.exec (s.boxes k').mb upc).1 }) →
+    have hb : ∀ s' : Sh, s' = s.updBox k' (fun b => b.ubStep upc) →
         (s'.boxes k).pending = (s.boxes k).pending ∧ (s'.boxes k).active = (s.boxes k).active := by
       intro s' e; subst e
       by_cases hk : k = k'
-      · subst hk; simp [updBox_same]
+      · subst hk; simp [updBox_same, Box.ubStep]
       · simp [updBox_ne _ _ _ _ hk]
-    have hs : (exec s (.ub k' first upc)).1 = s.updBox k' (fun b => { b with mb := (Unbounded.exec (s.boxes k').mb upc).1 }) := by
+    have hs : (exec s (.ub k' first upc)).1 = s.updBox k' (fun b => b.ubStep upc) := by
       simp only [exec]
       split <;> rfl
     have hsame : isCheck k (.ub k' first upc) = false → Outcome s (.ub k' first upc) k := fun hc =>
@@ -331,12 +331,12 @@ theorem subqueue_frame (s : Sh) (pc : PC) (k : Nat) :
     ∃ first upc, pc = .ub k first upc ∧ ((exec s pc).1.boxes k).mb = (Unbounded.exec (s.boxes k).mb upc).1 := by
   cases pc with
   | ub k' first upc =>
-    have hs : (exec s (.ub k' first upc)).1 = s.updBox k' (fun b => { b with mb := (Unbounded.exec (s.boxes k').mb upc).1 }) := by
+    have hs : (exec s (.ub k' first upc)).1 = s.updBox k' (fun b => b.ubStep upc) := by
       simp only [exec]
       split <;> rfl
     by_cases hk : k = k'
     · subst hk
-      exact Or.inr ⟨first, upc, rfl, by rw [hs, updBox_same]⟩
+      exact Or.inr ⟨first, upc, rfl, by rw [hs, updBox_same]; rfl⟩
     · exact Or.inl (by rw [hs, updBox_ne _ _ _ _ hk])
   | f4 k' v => exact Or.inl rfl
   | f5 k' v =>
@@ -390,7 +390,7 @@ theorem subqueue_frame (s : Sh) (pc : PC) (k : Nat) :
     simp only [exec]
     split
     · rw [activate_boxes]; apply hu; intro b; rfl
-    · split <;> exact hu (fun b => { b with pending := (s.boxes k').pending - 1 }) (fun _ => rfl)
+    · split <;> exact hu (fun b => { b with pending := (s.boxes k').pending - 1, decd := b.decd + 1, held := b.held - 1 }) (fun _ => rfl)
   | j3 k' n =>
     left
     by_cases hk : k = k'
